@@ -97,6 +97,11 @@ CLAIMED = {
             "Seeded search over the silent step x level (bare, connect, PFS perm/temp exchange, regeneration) x exchange timeout x caller deadline (none or far later) x link latency; the call must fail no later than the exchange timeout after the peer received the unanswered request.",
             "Trusted: bubble clock; 'step started' is taken as the arrival of the request at the peer (never earlier than the client's write).",
             "DESIGN.md §6 C12"),
+    "C29": ("client", "exploration",
+            "deterministic simulation of the real telegram.Client stack (reconnect loop, invokeConn retry, manager.Conn, mtproto.Conn, rpc.Engine) against scripted server endpoints behind a simulated dialer; per-request tape plans (ack/result/kill placements), failing dials, then calm or client shutdown; execution-log oracle against delivered-ack ground truth, bounded liveness",
+            "Seeded search over 1-3 concurrent requests x nine server plans per transmission (ack then result, result only, ack then link death, death before ack, silence then death, ack and death together, result and death together, ...) x 1-3 link deaths x failing re-dials x caller deadlines x interleavings; a request whose ack the client had read clearly before its link died is never transmitted on a later connection and does not return success without a result; a request never acknowledged is sent again on the replacement connection and succeeds once faults stop; results go to their own request; after the client is closed pending and new invocations return within 30 s.",
+            "Trusted: the link tap's record of when the client's reader took a frame; acks racing the link death count as either outcome; connection establishment uses a pre-seeded auth key (the key exchange itself is C09-C12).",
+            "DESIGN.md §6 C29"),
     "C16": ("stream", "exploration",
             "deterministic simulation of codecs + transport connection/listener over a chunking byte-stream network with concurrent senders; sequence-equality oracle",
             "Seeded search over codec x handshake/listener mode x obfuscation x read chunking x 1-3 concurrent senders x payload sizes clustered at the length-encoding boundaries; the receiver must get exactly the sent payloads (per-sender order, byte-exact, once), 4-byte frames must surface as *codec.ProtocolErr with that code, and the listener's detected codec must be the client's.",
